@@ -365,6 +365,39 @@ def run(ctx, build):
             tree_items.append((g.name, want, obs, combo, lay))
             if len(out.samples) < 4 and combo:
                 out.samples.append({'corruptions': names, 'observed': obs, 'rules_hold': want})
+        # ---- anonymous datasets (created without a name: they have no path): plain, and carrying every attribute of a valid Main
+        anon_src = f.create_group('anon_src')
+        src_main = gen.write_layout(f, lays[0], group=anon_src.name, main_name='Raw_Data')
+        for label, mk in (('anonymous_plain_2d', lambda: f.create_dataset(None, data=np.zeros((2, 3)))),
+                          ('anonymous_plain_1d', lambda: f.create_dataset(None, data=np.zeros(3))),
+                          ('anonymous_with_all_main_attributes', None)):
+            if mk is None:
+                obj = f.create_dataset(None, data=src_main[()])
+                for k0, v0 in src_main.attrs.items():
+                    obj.attrs[k0] = v0
+            else:
+                obj = mk()
+            d = describe(f, obj, [])
+            want = is_main_spec(d)
+            m = {'corruptions': [label], 'layout': lays[0].describe(), 'descriptor': d, 'rules_hold': want}
+            hist['anonymous_objects'] = hist.get('anonymous_objects', 0) + 1
+            try:
+                with common.quiet():
+                    r = check_if_main(obj)
+                if bool(r) != want:
+                    violate('hdf_utils.check_if_main', 'anonymous_dataset', 'answer_differs_from_structural_definition', '%s -> %s' % (label, r), m)
+            except Exception as e:
+                violate('hdf_utils.check_if_main', 'anonymous_dataset', 'raises', '%r for %s' % (e, label), m)
+            try:
+                with common.quiet():
+                    usid.USIDataset(obj)
+                built = 'ok'
+            except TypeError:
+                built = 'TypeError'
+            except Exception as e:
+                built = type(e).__name__
+            if (built == 'ok') != want or (not want and built != 'TypeError'):
+                violate('USIDataset.__init__', 'anonymous_dataset', 'wrapper_%s_but_rules_%s' % (built, 'hold' if want else 'fail'), label, m)
         # ---- recursive search over trees mixing valid, corrupted and unrelated objects
         n_trees = 12 if ctx.quick() else 150
         for ti in range(n_trees):
